@@ -586,7 +586,98 @@ def _union_dump_history_fixed(ctx):
                 return
 
 
-DIRECTED = {"union-dump-history-fixed-hierarchy": _union_dump_history_fixed, "literal-bool-int-cache-key": _literal_witness, "failed-request-then-success": _failed_request_then_success,
+class _InjectedBase(BaseException):
+    """A fault that is no Exception (KeyboardInterrupt / SystemExit / GeneratorExit class of events)."""
+
+
+def _reraise(e):
+    raise RuntimeError(f"died with {type(e).__name__}") from e
+
+
+class _InjectedError(RuntimeError):
+    """A fault that is an ordinary Exception (MemoryError / RecursionError / a bug in user code class of events)."""
+
+
+def _faults_at_every_point_of_the_first_request(ctx):
+    """Source-free failpoints: the FIRST request of a fresh retort (get_loader / get_dumper of a recursive model with a union and a nested
+    model; get_converter of a nested pair) is run under a tracer that raises at the k-th executed line inside adaptix, for k sweeping over the
+    whole request and for a fault that is an Exception and one that is only a BaseException. Whatever becomes of that request, the retort must
+    afterwards behave like a fresh one (same results, same errors) - a died request leaves nothing behind. (Generalises the NameError witness of
+    failed-request-then-success from one fault site to every line; seeded changes 'cleanup only after CannotProvide' were found five times.)"""
+    import os  # noqa: PLC0415
+    import sys  # noqa: PLC0415
+    import types as _types  # noqa: PLC0415
+
+    import adaptix  # noqa: PLC0415
+    from adaptix.conversion import ConversionRetort  # noqa: PLC0415
+
+    root = os.path.dirname(adaptix.__file__)
+    mod = _types.ModuleType("vlib_c11_faults")
+    sys.modules[mod.__name__] = mod
+    exec(compile("from dataclasses import dataclass, field\nfrom typing import List, Optional, Union, Dict\n"  # noqa: S102
+                 "@dataclass\nclass Leaf:\n    z: int\n"
+                 "@dataclass\nclass Tree:\n    kids: List['Tree']\n    leaf: Optional[Leaf] = None\n    tag: Union[int, str, None] = None\n    named: Dict[str, 'Tree'] = field(default_factory=dict)\n"
+                 "@dataclass\nclass LeafD:\n    z: int\n"
+                 "@dataclass\nclass Src:\n    a: int\n    leaf: Leaf\n    leaves: List[Leaf]\n"
+                 "@dataclass\nclass Dst:\n    a: int\n    leaf: LeafD\n    leaves: List[LeafD]\n", "<vlib_c11_faults>", "exec", dont_inherit=True), mod.__dict__)
+    Tree, Leaf, Src, Dst, LeafD = mod.Tree, mod.Leaf, mod.Src, mod.Dst, mod.LeafD
+    good = {"kids": [{"kids": [{"kids": [], "leaf": {"z": 1}, "tag": "t"}], "named": {"n": {"kids": []}}}], "tag": 5}
+    bad = {"kids": [{"kids": [{"kids": 5}]}], "tag": []}
+
+    def traced(fn, k, exc):
+        n = [0]
+
+        def tr(frame, ev, arg):
+            if not frame.f_code.co_filename.startswith(root):
+                return None
+
+            def local(frame, ev, arg):
+                if ev == "line":
+                    n[0] += 1
+                    if n[0] == k:
+                        raise exc("injected fault")
+                return local
+            return local
+        old = sys.gettrace()
+        sys.settrace(tr)
+        try:
+            try:
+                out = attempt(fn)
+            except BaseException as e:  # noqa: BLE001 - the injected BaseException itself
+                out = attempt(_reraise, e)
+        finally:
+            sys.settrace(old)
+        return out, n[0]
+
+    plans = [
+        ("get_loader", Retort, lambda r: r.get_loader(Tree), [lambda r: r.load(good, Tree), lambda r: r.load(bad, Tree), lambda r: r.load({"z": 1}, Leaf)]),
+        ("get_dumper", Retort, lambda r: r.get_dumper(Tree), [lambda r: r.dump(Tree([Tree([], Leaf(1), "t")], None, 5, {"n": Tree([])}), Tree), lambda r: r.load(good, Tree)]),
+        ("load", Retort, lambda r: r.load(good, Tree), [lambda r: r.load(good, Tree), lambda r: r.dump(Tree([]), Tree)]),
+        ("get_converter", ConversionRetort, lambda r: r.get_converter(Src, Dst), [lambda r: r.convert(Src(1, Leaf(2), [Leaf(3)]), Dst), lambda r: r.get_converter(Leaf, LeafD)(Leaf(7))]),
+    ]
+    points = 60 if ctx.tier == "quick" else 400
+    for name, mk, first, probes in plans:
+        _, total = traced(lambda: first(mk()), -1, _InjectedError)
+        refs = [attempt(p, mk()) for p in probes]
+        ctx.count("fault_request_line_events", total)
+        step = max(1, total // points)
+        for k in range(1, total + 1, step):
+            for exc in (_InjectedError, _InjectedBase):
+                r = mk()
+                died, _ = traced(lambda: first(r), k, exc)
+                ctx.evaluated(("fault-injection", name, k, exc.__name__), nontrivial=True)
+                ctx.count("faults_injected")
+                ctx.count("faulted_requests_that_died" if died.kind != "ok" else "faulted_requests_that_survived")
+                for i, (p, ref) in enumerate(zip(probes, refs)):
+                    out = attempt(p, r)
+                    same = out.kind == ref.kind and (strict_eq(out.value, ref.value) if out.kind == "ok" else type(out.exc) is type(ref.exc) and error_sig(out.exc) == error_sig(ref.exc))
+                    if not same:
+                        ctx.violation("history-dependent:after-injected-fault", f"{name}: a fault ({exc.__name__}) at executed line #{k} of {total} of the first request ({died!r:.80}); afterwards probe #{i} gives "
+                                      f"{out!r:.160}, a fresh retort gives {ref!r:.160}", {"request": name, "line_event": k, "fault": exc.__name__})
+                        break
+
+
+DIRECTED = {"faults-at-every-point-of-the-first-request": _faults_at_every_point_of_the_first_request, "union-dump-history-fixed-hierarchy": _union_dump_history_fixed, "literal-bool-int-cache-key": _literal_witness, "failed-request-then-success": _failed_request_then_success,
             "recursion-stub-of-earlier-request": _stub_of_earlier_request}
 
 
